@@ -335,6 +335,12 @@ func genPlan(t *rapid.T, enabledKeys []int, thr int, label string) *plan {
 			switch rapid.IntRange(0, 19).Draw(t, label+"/tamper") {
 			case 0:
 				s.Signer = 16 + rapid.IntRange(0, 7).Draw(t, label+"/unknown") // never enabled
+				if len(enabledKeys) > 0 && rapid.Bool().Draw(t, label+"/related") {
+					// a key algebraically related to an enabled one: its negation (same X) or an endomorphism
+					// multiple (same Y) -- never enabled either
+					base := enabledKeys[rapid.IntRange(0, len(enabledKeys)-1).Draw(t, label+"/relbase")]
+					s.Signer = attest.RelatedBase + 3*base + rapid.IntRange(0, 2).Draw(t, label+"/relkind")
+				}
 			case 1:
 				s.Signer = rapid.IntRange(0, 15).Draw(t, label+"/any") // possibly disabled / duplicate
 			case 2:
@@ -420,7 +426,7 @@ func genDecoys(t *rapid.T, enabled []attEntry) []string {
 func genC01(t *rapid.T) *c01case {
 	c := &c01case{}
 	max := 8
-	if rapid.IntRange(0, 19).Draw(t, "large") == 0 {
+	if rapid.IntRange(0, 4).Draw(t, "large") == 0 {
 		max = 24
 	}
 	n := rapid.IntRange(1, max).Draw(t, "nenabled")
@@ -459,6 +465,21 @@ func genC01(t *rapid.T) *c01case {
 		c.Plan = genPlan(t, enabledKeys, int(c.Threshold), "plan")
 	}
 	return c
+}
+
+// relatedPrelude: a quorum "completed" by keys related to one enabled key (registry of 9, threshold 3).
+func relatedPrelude() []*c01case {
+	msg := hex.EncodeToString([]byte("prelude message"))
+	var en []attEntry
+	for i := 0; i < 9; i++ {
+		en = append(en, attEntry{Key: i, Style: i % 6})
+	}
+	ex := func(signer int) slot { return slot{Signer: signer, Payload: "exact", V: "01"} }
+	return []*c01case{
+		{Enabled: en, Threshold: 2, Msg: msg, Plan: &plan{Slots: []slot{ex(0), ex(attest.RelatedBase)}, Arrange: "asc", Edit: "none"}},
+		{Enabled: en, Threshold: 3, Msg: msg, Plan: &plan{Slots: []slot{ex(1), ex(attest.RelatedBase + 3*1 + 1), ex(attest.RelatedBase + 3*1 + 2)}, Arrange: "asc", Edit: "none"}},
+		{Enabled: en[:3], Threshold: 2, Msg: msg, Plan: &plan{Slots: []slot{ex(2), ex(attest.RelatedBase + 3*2)}, Arrange: "asc", Edit: "none"}},
+	}
 }
 
 func c01prelude() []*c01case {
@@ -503,7 +524,7 @@ func RunC01(t *testing.T) {
 		st.Case(key, func() any { return cc }, append(cls, extra)...)
 		return nil, ""
 	}
-	for _, c := range c01prelude() {
+	for _, c := range append(c01prelude(), relatedPrelude()...) {
 		if v, h := run(c, "prelude"); v != nil || h != "" {
 			if h != "" {
 				t.Fatalf("HARNESS %s", h)
